@@ -338,13 +338,33 @@ fn big_strategy() -> BoxedStrategy<BigCase> {
 
 fn big_dims(c: &BigCase) -> (usize, usize, usize) {
     const NS: [usize; 11] = [8, 9, 15, 16, 17, 31, 32, 33, 63, 64, 65];
-    const ROWS: [usize; 6] = [255, 256, 257, 1023, 1024, 1025];
+    const ROWS: [usize; 12] = [255, 256, 257, 999, 1000, 1001, 1023, 1024, 1025, 9999, 10000, 10001];
     (if c.wide { 35 } else { 17 }, NS[gen::idx(c.n_sel, NS.len())], ROWS[gen::idx(c.rows_sel, ROWS.len())])
 }
 
 fn check_big(c: &BigCase, ctx: &Ctx) -> Outcome {
     let (k, n, rows) = big_dims(c);
-    let t = big_symbol_table(k, n, rows, c.salt, c.pgap, 0, c.stride);
+    let mut t = big_symbol_table(k, n, rows, c.salt, c.pgap, 0, c.stride);
+    // a third of the cases: every row is variable and nothing is filtered, so that exactly `rows` rows are
+    // compared (code that works through the rows in blocks meets its block size exactly)
+    let mut c = c.clone();
+    if c.salt % 3 == 0 {
+        c.freq = Freq::Zero;
+        for (i, r) in t.rows.values_mut().enumerate() {
+            let mut seen: Vec<u8> = r.iter().copied().filter(|b| *b != b'-').collect();
+            seen.sort();
+            seen.dedup();
+            if seen.len() < 2 {
+                let j = i % n;
+                let other = if r[(j + 1) % n] == b'-' { b'A' } else { r[(j + 1) % n] };
+                r[j] = model::BASES[(model::BASES.iter().position(|b| *b == other).unwrap_or(0) + 1) % 4];
+                if r[(j + 1) % n] == b'-' {
+                    r[(j + 1) % n] = other;
+                }
+            }
+        }
+    }
+    let c = &c;
     let threshold = c.freq.ceil(n);
     let exp = model_distance(&t, threshold);
     let dir = ctx.case_dir();
@@ -379,7 +399,7 @@ fn check_big(c: &BigCase, ctx: &Ctx) -> Outcome {
     }
 }
 
-const BIG_RULE: &str = "generated: unambiguous tables of 8..65 samples (on and next to 8,16,32,64) x 255..1025 rows (constant, constant with gaps, one deviating sample at any column, two alleles split at a column, random with generated gap density), k=17 / k=35, written through the public API; min-freq selectors as in the inproc stage; half of the cases through ska distance with --threads in {1,2,3,4,8,16}. Oracle: every line == model (pairs in order, SNP count, mismatch proportion). Every case non-trivial (hundreds of pairs with SNPs and mismatches).";
+const BIG_RULE: &str = "generated: unambiguous tables of 8..65 samples (on and next to 8,16,32,64) x 255..10001 rows (on and next to 256, 1000, 1024, 10000; in a third of the cases every row variable and unfiltered, so that exactly that many rows are compared; constant, constant with gaps, one deviating sample at any column, two alleles split at a column, random with generated gap density), k=17 / k=35, written through the public API; min-freq selectors as in the inproc stage; half of the cases through ska distance with --threads in {1,2,3,4,8,16}. Oracle: every line == model (pairs in order, SNP count, mismatch proportion). Every case non-trivial (hundreds of pairs with SNPs and mismatches).";
 
 fn stages(tier: Tier) -> Vec<Box<dyn Stage>> {
     vec![
